@@ -8,6 +8,7 @@ THEOREMS = [
     'Lcdb.blockIter_no_fault', 'Lcdb.blockIter_status_sticky', 'Lcdb.filter_no_fault', 'Lcdb.filterMatch_total', 'Lcdb.bloomMatch_total',
     'Lcdb.Snappy.snappy_decode_safe', 'Lcdb.Snappy.decodeElem_safe', 'Lcdb.Snappy.decode_rejects_large',
     'Lcdb.C17.decode_total', 'Lcdb.C17.editDecodeGo_fuel', 'Lcdb.C04.iterate_total', 'Lcdb.C04.short_rejected', 'Lcdb.C15.read_sound',
+    'Lcdb.TableProps.table_no_fault', 'Lcdb.TableProps.readBlock_total', 'Lcdb.TableProps.tableIter_status_sticky',
     'Lcdb.varint32Read_consumes', 'Lcdb.varint64Read_consumes', 'Lcdb.sliceRead_consumes', 'Lcdb.C20.parse_sound', 'Lcdb.footerRead_some_iff_magic',
 ]
 IMPORTS = ['LcdbModel.Props.C18']
@@ -35,12 +36,11 @@ def run(tier):
     for c in logc:
         c.oracle = None      # the C15 oracles (drop reporting) belong to C15; here only faults and model agreement count
     cases += logc
-    try:
-        import gens_table
-        if hasattr(gens_table, 'gen_table_malformed'):
-            cases += gens_table.gen_table_malformed(rng.fork('tm'), 300 * m)
-    except ImportError:
-        pass
+    import gens_table
+    tm = [c for c in gens_table.gen_table_mut(rng.fork('tm'), 400 * m) if c.suite in ('table-mut-lax', 'table-mut-strict', 'table-mut-footer')] + gens_table.gen_table_misc(rng.fork('tmisc'), 40 * m)
+    for c in tm:
+        c.oracle = None          # right-answer-or-error is C11; here only faults and agreement with the model
+    cases += tm
     chk.rules.append('every decoder entry point (varint/slice, log reader, write batch, version edit, block init/iterator incl. restart search, filter reader, bloom match, handle/footer, '
                      'Snappy decoder, file-name parser, table reader when present) fed random bytes, structure-aware mutations of valid encodings (length fields, varints, restart arrays, handles, '
                      'counts, offsets at boundary values), truncations and hand-crafted header combinations; the ASan+UBSan build must not fault, must terminate, and must agree with the Lean model '
